@@ -278,7 +278,9 @@ fn check_group(w: &World, si: usize, seq: &[u8], parts: &[usize], only: Option<&
                     }
                     if let Interrupt::BeforeBatchLoad(k) = p {
                         // everything produced by the first k lines must have been printed
-                        let pf = files_from_bytes(&blines[..*k], &[*k]);
+                        // (a changed executor may poll once more than there are lines: clamp)
+                        let kk = (*k).min(blines.len());
+                        let pf = files_from_bytes(&blines[..kk], &[kk]);
                         let prefs: Vec<&[u8]> = pf.iter().map(|f| f.as_slice()).collect();
                         if let Outcome::Ok(e) = run_with(&w.tables, text, &prefs, &Interrupt::None).0 {
                             let want = nonblank(&e.printed);
